@@ -93,6 +93,9 @@ def cmd_run(ids, tier, checks):
     for sid in ids:
         sd = os.path.join(base, sid)
         meta = json.load(open(os.path.join(sd, 'meta.json')))
+        if meta.get('status') == 'retired':
+            print('%-14s retired: %s' % (sid, meta.get('retired_because', '')[:120]))
+            continue
         d, err = scratch(os.path.join(sd, 'patch.diff'))
         if d is None:
             print('%s: patch no longer applies: %s' % (sid, err[:200]))
